@@ -106,6 +106,14 @@ def run(project: Project, rep, tier: str):
     except AnalysisError as ex:
         rep.unmodelled("WS-SOLVE", fi, fi.node, f"matching=True: {ex}"[:160])
     check_empty(rep, project, WS, rule="WS-EMPTY")
+    # WS-DTYPE: representation independence of the distance's own input handling — no float store into an array typed by a diagram,
+    # no cast of one diagram to the dtype of the other (rules/dtype_rule.py) — over the entry point and the helpers it calls
+    from . import dtype_rule as _dt
+    from .oneshot import reachable_functions as _reach
+    _fns = _reach(project, [WS])
+    if _fns:
+        _dt.run_on(project, rep, "WS-DTYPE", _fns)
+    rep.floor("WS-DTYPE", 1)
     for ev in run_.events("shape-error"):
         if run_.interp.clean_before(ev):
             rep.refuted("WS-TILE", fi, ev["node"], f"shape mismatch for some sizes: {ev['message']}")
